@@ -425,4 +425,63 @@ def Op.controls {n : Nat} {α : Type} : Op n α → List (Fin n)
   | _ => []
 
 
+/-! ### `num_qubit`, index shifting -/
+
+/-- the qubit indices an entry mentions (`kind='custom'` entries mention none: `index = ()`) -/
+def RawOp.indices {α : Type} : RawOp α → List Int
+  | .unitary _ t => t
+  | .control _ c t => c ++ t
+  | .measure s _ => s
+  | .custom _ => []
+
+theorem foldl_max_ge_init (l : List Int) (a : Int) : a ≤ l.foldl max a := by
+  induction l generalizing a with
+  | nil => simp
+  | cons x l ih => exact le_trans (le_max_left a x) (ih (max a x))
+
+theorem foldl_max_ge_mem (l : List Int) (a : Int) : ∀ x ∈ l, x ≤ l.foldl max a := by
+  induction l generalizing a with
+  | nil => simp
+  | cons y l ih =>
+    intro x hx
+    rcases List.mem_cons.1 hx with rfl | hx
+    · exact le_trans (le_max_right a x) (foldl_max_ge_init l _)
+    · exact ih _ x hx
+
+theorem foldl_max_mem (l : List Int) (a : Int) : l.foldl max a = a ∨ l.foldl max a ∈ l := by
+  induction l generalizing a with
+  | nil => simp
+  | cons y l ih =>
+    rcases ih (max a y) with h | h
+    · rw [List.foldl_cons, h]
+      rcases max_choice a y with h' | h'
+      · exact Or.inl h'
+      · exact Or.inr (by rw [h']; simp)
+    · exact Or.inr (List.mem_cons_of_mem _ h)
+
+theorem maxIndex_eq {α : Type} (g : RawOp α) : g.maxIndex = g.indices.foldl max 0 := by
+  cases g <;> rfl
+
+
+section castk
+variable {R : Type}
+
+theorem embed_cast_k [Zero R] {n k k' : Nat} (h : k' = k) (A : Array R) (t : Fin k → Fin n) (t' : Fin k' → Fin n)
+    (ht : ∀ j : Fin k', t' j = t (Fin.cast h j)) :
+    embed (lookupMat (k := k') A) t' = embed (lookupMat (k := k) A) t := by
+  subst h
+  have : t' = t := funext fun j => by simpa using ht j
+  rw [this]
+
+theorem ctrlEmbed_cast_k [Zero R] [One R] {n k k' : Nat} (h : k' = k) (A : Array R) (isCtrl isCtrl' : Fin n → Bool)
+    (hi : ∀ i, isCtrl' i = isCtrl i)
+    (t : Fin k → Fin n) (t' : Fin k' → Fin n) (ht : ∀ j : Fin k', t' j = t (Fin.cast h j)) :
+    ctrlEmbed (lookupMat (k := k') A) isCtrl' t' = ctrlEmbed (lookupMat (k := k) A) isCtrl t := by
+  subst h
+  have : t' = t := funext fun j => by simpa using ht j
+  have hi' : isCtrl' = isCtrl := funext hi
+  rw [this, hi']
+
+end castk
+
 end Numqi
